@@ -1,6 +1,8 @@
 /-
 Lemmas about the core engine model, part 1: definitions of the invariant, the from-scratch
-reference (`cur`), `Settled`, `Frame`, and their basic theory.
+reference (`cur`, on the committed inputs `inputsOf` and the external values `extOf` = pinned value
+of an external key computed so far (`pinsOf`), value of its executor on the current world
+otherwise), `Settled`, `Frame`, and their basic theory.
 -/
 import QbiceVerif.Model.EngineCore
 namespace Qbice.Core
@@ -11,11 +13,32 @@ macro "komega" : tactic => `(tactic| ((try unfold Key at *); omega))
 /-- the committed inputs of a state -/
 def inputsOf (s : St) (k : Key) : Option Val :=
   match s.nodes k with
-  | some n => if n.isInput then some n.value else none
+  | some n => if n.kind = .input then some n.value else none
   | none => none
 
-/-- from-scratch value of `k` on the committed inputs of `s` -/
-def cur (p : Program) (s : St) (k : Key) : Option Val := evalSpec p (inputsOf s) (k + 1) k
+/-- the external keys computed so far, with the value their executor returned at the first demand /
+    the last refresh -/
+def pinsOf (s : St) (k : Key) : Option Val :=
+  match s.nodes k with
+  | some n => if n.kind = .external then some n.value else none
+  | none => none
+
+/-- reference value of the external keys: the pinned value of a key computed so far, what the
+    executor returns on the world `w` for a key never demanded -/
+def extRef (p : Program) (pins : Key → Option Val) (w : Key → Val) (k : Key) : Option Val :=
+  match pins k with
+  | some v => some v
+  | none =>
+    match p[k]? with
+    | some d => some (d.ext w)
+    | none => none
+
+/-- the external values of a state: "the world as of first demand / last refresh" -/
+def extOf (p : Program) (s : St) : Key → Option Val := extRef p (pinsOf s) s.world
+
+/-- from-scratch value of `k` on the committed inputs and external values of `s` -/
+def cur (p : Program) (s : St) (k : Key) : Option Val :=
+  evalSpec p (inputsOf s) (extOf p s) (k + 1) k
 
 /-- Hoare-style result predicate: an `ok` result satisfies `P`, an error is never `outOfFuel` -/
 def Sat {α : Type} (r : Except Err α) (P : α → Prop) : Prop :=
@@ -55,10 +78,10 @@ def Just (p : Program) (s : St) (x : Key) : Prop :=
 
 structure Inv (p : Program) (s : St) : Prop where
   kind : ∀ k n, s.nodes k = some n →
-    ∃ d, p[k]? = some d ∧ d.isInput = n.isInput ∧ (n.isInput = true → n.deps = [])
+    ∃ d, p[k]? = some d ∧ d.kind = n.kind ∧ (n.kind ≠ .normal → n.deps = [])
   down : ∀ k n, s.nodes k = some n → ∀ d o, (d, o) ∈ n.deps → d < k
   nodup : ∀ k n, s.nodes k = some n → (n.deps.map (·.1)).Nodup
-  trace : ∀ k n d, s.nodes k = some n → p[k]? = some d → n.isInput = false →
+  trace : ∀ k n d, s.nodes k = some n → p[k]? = some d → n.kind = .normal →
     TraceOK d.prog n.deps n.value
   stamp : ∀ k n, s.nodes k = some n → n.lastVerified ≤ s.epoch
   verified_clean : ∀ k n, s.nodes k = some n → n.lastVerified = s.epoch →
@@ -70,15 +93,26 @@ structure Frame (p : Program) (s s' : St) : Prop where
   epoch : s'.epoch = s.epoch
   dirty : ∀ a b, s'.dirty a b = true → s.dirty a b = true
   inputs : inputsOf s' = inputsOf s
+  ext : extOf p s' = extOf p s
+  world : s'.world = s.world
   keep : ∀ x n, Settled s x → s.nodes x = some n →
     ∃ n', s'.nodes x = some n' ∧ n'.value = n.value ∧ n'.deps = n.deps
   same_or_verified : ∀ x, s'.nodes x = s.nodes x ∨ Verified s' x
-  log : ∃ new, s'.log = s.log ++ new ∧ new.Nodup ∧ ∀ x, x ∈ new → Just p s x ∧ Verified s' x
+  log : ∃ new, s'.log = s.log ++ new ∧ new.Nodup ∧ (∀ x, x ∈ new → Just p s x ∧ Verified s' x) ∧
+    ∀ x, s.nodes x = none → s'.nodes x ≠ none → x ∈ new
 
 def Touches (b : Nat) (s s' : St) : Prop :=
   ∀ x, b ≤ x → s'.nodes x = s.nodes x ∧ ∀ y, s'.dirty x y = s.dirty x y
 
 -- ------------------------------------------------------------------ the specification
+
+theorem allVals_congr (r₁ r₂ : Key → Option Val) (ks : List Key) (h : ∀ k, k ∈ ks → r₁ k = r₂ k) :
+    allVals r₁ ks = allVals r₂ ks := by
+  induction ks with
+  | nil => rfl
+  | cons d rest ih =>
+    simp only [allVals, h d (List.mem_cons_self ..),
+      ih (fun k hk => h k (List.mem_cons_of_mem _ hk))]
 
 theorem evalProg_congr_below (r₁ r₂ : Key → Option Val) (b : Nat) (h : ∀ k, k < b → r₁ k = r₂ k)
     (prog : Prog) (hb : prog.Below b) : evalProg r₁ prog = evalProg r₂ prog := by
@@ -90,9 +124,15 @@ theorem evalProg_congr_below (r₁ r₂ : Key → Option Val) (b : Nat) (h : ∀
     cases r₂ d with
     | none => rfl
     | some v => exact ih v (hc v)
+  | askAll ks cont ih =>
+    obtain ⟨hd, hc⟩ := hb
+    simp only [evalProg, allVals_congr r₁ r₂ ks (fun k hk => h k (hd k hk))]
+    cases allVals r₂ ks with
+    | none => rfl
+    | some vs => exact ih vs (hc vs)
 
-theorem evalSpec_fuel_stable {p : Program} (wf : WF p) (i : Key → Option Val) :
-    ∀ k f, k + 1 ≤ f → evalSpec p i f k = evalSpec p i (k + 1) k := by
+theorem evalSpec_fuel_stable {p : Program} (wf : WF p) (i e : Key → Option Val) :
+    ∀ k f, k + 1 ≤ f → evalSpec p i e f k = evalSpec p i e (k + 1) k := by
   intro k
   induction k using Nat.strongRecOn with
   | _ k ih =>
@@ -103,16 +143,18 @@ theorem evalSpec_fuel_stable {p : Program} (wf : WF p) (i : Key → Option Val) 
     | none => rfl
     | some d =>
       simp only
-      cases hi : d.isInput with
-      | true => simp
-      | false =>
-        simp only [Bool.false_eq_true, if_false]
+      cases hi : d.kind with
+      | input => rfl
+      | external => rfl
+      | normal =>
+        simp only
         apply evalProg_congr_below _ _ k _ _ (wf k d hp hi)
         intro j hj
         rw [ih j hj f' (by omega), ih j hj k (by omega)]
 
-theorem cur_congr {p : Program} {s s' : St} (h : inputsOf s' = inputsOf s) : cur p s' = cur p s := by
-  funext k; simp [cur, h]
+theorem cur_congr {p : Program} {s s' : St} (h : inputsOf s' = inputsOf s)
+    (he : extOf p s' = extOf p s) : cur p s' = cur p s := by
+  funext k; simp [cur, h, he]
 
 -- ------------------------------------------------------------------ Settled
 
@@ -159,20 +201,23 @@ theorem settled_correct {p : Program} (wf : WF p) {s : St} (inv : Inv p s) {k : 
     refine ⟨n, hk, ?_⟩
     obtain ⟨d, hp, hki, hnd⟩ := inv.kind k n hk
     simp only [cur, evalSpec, hp]
-    cases hi : n.isInput with
-    | true =>
+    cases hi : n.kind with
+    | input =>
       rw [hi] at hki
       simp [hki, inputsOf, hk, hi]
-    | false =>
+    | external =>
       rw [hi] at hki
-      simp only [hki, Bool.false_eq_true, if_false]
+      simp [hki, extOf, extRef, pinsOf, hk, hi]
+    | normal =>
+      rw [hi] at hki
+      simp only [hki]
       apply inv.trace k n d hk hp hi
       intro d' o hm
       obtain ⟨nd, hnd, hcur⟩ := ih d' o hm
       obtain ⟨nd', hnd', hv'⟩ := hval d' o hm
       rw [hnd] at hnd'; cases hnd'
       have hlt : d' < k := inv.down k n hk d' o hm
-      rw [evalSpec_fuel_stable wf _ d' k hlt]
+      rw [evalSpec_fuel_stable wf _ _ d' k hlt]
       rw [← hv']; exact hcur
 
 theorem just_not_settled {p : Program} (wf : WF p) {s : St} (inv : Inv p s) {k : Key}
@@ -190,13 +235,22 @@ theorem just_not_settled {p : Program} (wf : WF p) {s : St} (inv : Inv p s) {k :
 
 -- ------------------------------------------------------------------ Verified / Just / Frame
 
+/-- the `log` clause of `Frame` for a step that executes nothing and creates no node -/
+theorem Frame.log_nil {p : Program} {s s' : St} (hl : s'.log = s.log)
+    (hn : ∀ x, s.nodes x = none → s'.nodes x = none) :
+    ∃ new, s'.log = s.log ++ new ∧ new.Nodup ∧ (∀ x, x ∈ new → Just p s x ∧ Verified s' x) ∧
+      ∀ x, s.nodes x = none → s'.nodes x ≠ none → x ∈ new :=
+  ⟨[], by simp [hl], by simp, fun _ h => (by cases h), fun x h h' => absurd (hn x h) h'⟩
+
 theorem Frame.refl (p : Program) (s : St) : Frame p s s where
   epoch := rfl
   dirty := fun _ _ h => h
   inputs := rfl
+  ext := rfl
+  world := rfl
   keep := fun _ n _ h => ⟨n, h, rfl, rfl⟩
   same_or_verified := fun _ => Or.inl rfl
-  log := ⟨[], by simp⟩
+  log := ⟨[], by simp, by simp, fun _ h => (by cases h), fun _ h h' => absurd h h'⟩
 
 theorem Frame.settled {p : Program} {s s' : St} (f : Frame p s s') {x : Key} (h : Settled s x) :
     Settled s' x :=
@@ -216,6 +270,9 @@ theorem Frame.verified {p : Program} {s s' : St} (f : Frame p s s') {x : Key} (h
     exact ⟨n, by rw [e, hn], by rw [hv, f.epoch]⟩
   | inr v => exact v
 
+theorem Frame.cur {p : Program} {s s' : St} (f : Frame p s s') : cur p s' = cur p s :=
+  cur_congr f.inputs f.ext
+
 theorem Frame.just {p : Program} {s s' : St} (f : Frame p s s') {x : Key} (h : Just p s' x) :
     Just p s x := by
   obtain ⟨hnv, h⟩ := h
@@ -224,7 +281,7 @@ theorem Frame.just {p : Program} {s s' : St} (f : Frame p s s') {x : Key} (h : J
     | inl e => exact e
     | inr v => exact absurd v hnv
   refine ⟨fun hv => hnv (f.verified hv), ?_⟩
-  rw [e, cur_congr f.inputs] at h
+  rw [e, f.cur] at h
   exact h
 
 theorem Frame.trans {p : Program} {s s' s'' : St} (f : Frame p s s') (g : Frame p s' s'') :
@@ -232,6 +289,8 @@ theorem Frame.trans {p : Program} {s s' s'' : St} (f : Frame p s s') (g : Frame 
   epoch := by rw [g.epoch, f.epoch]
   dirty := fun a b h => f.dirty a b (g.dirty a b h)
   inputs := by rw [g.inputs, f.inputs]
+  ext := by rw [g.ext, f.ext]
+  world := by rw [g.world, f.world]
   keep := by
     intro x n hs hn
     obtain ⟨n', hn', hv', hd'⟩ := f.keep x n hs hn
@@ -246,9 +305,9 @@ theorem Frame.trans {p : Program} {s s' s'' : St} (f : Frame p s s') (g : Frame 
       | inl e' => exact Or.inl (by rw [e, e'])
       | inr v => exact Or.inr (g.verified v)
   log := by
-    obtain ⟨n1, h1, nd1, j1⟩ := f.log
-    obtain ⟨n2, h2, nd2, j2⟩ := g.log
-    refine ⟨n1 ++ n2, by rw [h2, h1, List.append_assoc], ?_, ?_⟩
+    obtain ⟨n1, h1, nd1, j1, b1⟩ := f.log
+    obtain ⟨n2, h2, nd2, j2, b2⟩ := g.log
+    refine ⟨n1 ++ n2, by rw [h2, h1, List.append_assoc], ?_, ?_, ?_⟩
     · rw [List.nodup_append]
       refine ⟨nd1, nd2, ?_⟩
       intro a ha b hb hab
@@ -259,6 +318,11 @@ theorem Frame.trans {p : Program} {s s' s'' : St} (f : Frame p s s') (g : Frame 
       cases hx with
       | inl hx => exact ⟨(j1 x hx).1, g.verified (j1 x hx).2⟩
       | inr hx => exact ⟨f.just (j2 x hx).1, (j2 x hx).2⟩
+    · intro x hx hx''
+      rw [List.mem_append]
+      cases hx' : s'.nodes x with
+      | none => exact Or.inr (b2 x hx' hx'')
+      | some n' => exact Or.inl (b1 x hx (by rw [hx']; simp))
 
 theorem Touches.refl (b : Nat) (s : St) : Touches b s s := fun _ _ => ⟨rfl, fun _ => rfl⟩
 
